@@ -12,7 +12,7 @@ RULE = ("DEB: `ar` archives built member by member (debian-binary, control.tar[.
         "header; roles builder/origin/maint/archive/''/12- and 13-byte/'a/b'/'builder/'/'b '. Ops: sign (offset, length, header "
         "fields, canonical text of the real clear-signed message), verify (real Verify with seekable and plain reader), roundtrip "
         "(Sign -> binpatch Apply -> Verify), resign (two rounds, skeleton of the result), mutate (C02: every header byte, body "
-        "edges, padding bytes of really signed archives) and structural edits (reorder, shadowing duplicate, header fields, extra "
+        "edges, padding bytes of really signed archives) and structural edits (reorder, shadowing duplicate (refused since the fix for F40), header fields, extra "
         "member, padding value, removal, signature first), clean (path.Clean), canon (clear-sign round trip). "
         "Non-trivial = distinct op on which the model's walk yields at least one member.")
 TRUSTED = ["Relic.Model.Deb is hand-written from lib/signdeb/{debsign,verify}.go and github.com/blakesmith/ar; tied by differential execution",
@@ -175,10 +175,10 @@ def predicate(prop, op, il, mres, tag):
                     "an archive/role outside the regular class (%s) was signed twice into a file that fails or keeps the stale slot: %s" % (_why(kv), iv[:120]))
     if kind == "verify" and len(f) > 5 and prop == "C02" and il.startswith("ok ") and il != "ok none":
         # structural edits of a really signed archive
-        if f[5] == "shadow":
-            return ("Relic.Props.C02.deb_shadow_member_accepted", "rejected",
-                    "a member inserted in front of a signed member of the same name is not noticed by Verify")
-        if f[5] in ("dup-after", "extra", "remove"):
+        if f[5] in ("shadow", "dup-after"):
+            return ("Relic.Props.C02.deb_duplicate_member_rejected", "err duplicate",
+                    "an archive with two digested members of one name (edit '%s' of a signed archive) is accepted by Verify" % f[5])
+        if f[5] in ("extra", "remove"):
             return ("Relic.Props.C02.deb_listed_member_protected", "rejected", "edit '%s' of a signed archive accepted" % f[5])
     if kind == "mutate" and il.startswith("ok ") and prop == "C02":
         outs = il.split(" ")[1:]
@@ -197,8 +197,6 @@ def matches_known(k, op, il, mres, tag):
     ident = k.get("identity", {})
     site = ident.get("site", "")
     f = op.split(" ", 3)
-    if site == "signdeb.Verify:duplicate-name":
-        return len(f) > 3 and op.split(" ")[1] == "verify" and op.split(" ")[-1] == "shadow" and il.startswith("ok ") and equiv(op, il, mres)
     if site == "signdeb.Sign:irregular-input":
         kv = _kv(tag)
         why = _why(kv)
